@@ -306,7 +306,9 @@ Proof.
   - unfold entry_add. destruct vs as [|p r].
     + intro H. inversion H; subst. rewrite app_nil_r. reflexivity.
     + destruct (negb (N.eqb (evtype e) 0) && negb (all_type (evtype e) (p :: r))); [discriminate|].
-      destruct (evals e) as [|q l] eqn:El; intro H; inversion H; subst; reflexivity.
+      destruct (evals e) as [|q l] eqn:El; intro H.
+      * destruct (all_type (ptype p) (p :: r)); [|discriminate]. inversion H; subst. reflexivity.
+      * inversion H; subst. reflexivity.
   - unfold new_entry. destruct vs as [|p r].
     + intro H. inversion H; subst. reflexivity.
     + destruct (all_type (ptype p) (p :: r)); [|discriminate]. intro H. inversion H; subst. reflexivity.
